@@ -885,6 +885,11 @@ func (c *Compiler) implementsMarshalText(typ *runtime.Type) bool {
 }
 
 func (c *Compiler) isNilableType(typ *runtime.Type) bool {
+	switch typ.Kind() {
+	case reflect.Struct, reflect.Array:
+		// pointer-shaped structs and arrays are handled through their address like the others
+		return false
+	}
 	if !runtime.IfaceIndir(typ) {
 		return true
 	}
